@@ -240,3 +240,56 @@ pub fn compare_content(case: &ContentCase, addrs: &[jbk::ContentAddress], pack: 
     }
     diffs
 }
+
+/// Create the packs of `case` as loose files with the low-level creators (ContentPackCreator on a NamedFile,
+/// DirectoryPackCreator, ManifestPackCreator) recording `location(i)` for pack number i (0 = directory, 1.. = content packs);
+/// when `concat_to` is given, all the files are then joined by `tools::concat` into that single file.
+pub fn create_loose(case: &ContCase, dir: &Path, location: &dyn Fn(usize, &str) -> String, concat_to: Option<&str>) -> Result<CreatedCont, String> {
+    use jbk::creator::{DirectoryPackCreator, ManifestPackCreator};
+    let inputs = dir.join("inputs");
+    std::fs::create_dir_all(&inputs).map_err(|e| e.to_string())?;
+    let mut pack_files: Vec<(String, jbk::creator::PackData)> = vec![];
+    let mut all_addrs = vec![];
+    for (pi, cc) in std::iter::once(&case.content).chain(case.extra.iter()).enumerate() {
+        let fname = format!("pack{}.jbkc", pi + 1);
+        let upath = camino::Utf8PathBuf::from_path_buf(dir.join(&fname)).map_err(|_| "utf8")?;
+        let mut c = ContentPackCreator::new(&upath, jbk::PackId::from(pi as u16 + 1), vendor(), Default::default(), cc.comp.to_jbk()).map_err(|e| format!("content new: {e}"))?;
+        let addrs = add_all(&mut c, cc, &inputs).map_err(|e| format!("add_content: {e}"))?;
+        let (_f, data) = c.finalize().map_err(|e| format!("content finalize: {e}"))?;
+        pack_files.push((fname, data));
+        all_addrs.push(addrs);
+    }
+    let mut dcreator = DirectoryPackCreator::new(jbk::PackId::from(0), vendor(), Default::default());
+    let inst = install(&case.dir, build(&case.dir), &mut dcreator);
+    let dname = "dir.jbkd".to_string();
+    let mut dfile = std::fs::OpenOptions::new().read(true).write(true).create(true).truncate(true).open(dir.join(&dname)).map_err(|e| e.to_string())?;
+    let ddata = dcreator.finalize().map_err(|e| format!("dir finalize: {e}"))?.write(&mut dfile).map_err(|e| format!("dir write: {e}"))?;
+    drop(dfile);
+    let mut m = ManifestPackCreator::new(vendor(), Default::default());
+    m.add_pack(ddata, location(0, &dname));
+    let mut names = vec![dname.clone()];
+    for (i, (fname, data)) in pack_files.into_iter().enumerate() {
+        m.add_pack(data, location(i + 1, &fname));
+        names.push(fname);
+    }
+    let mname = if concat_to.is_some() { "manifest.jbkm" } else { "c.jbk" };
+    let mut mfile = std::fs::OpenOptions::new().read(true).write(true).create(true).truncate(true).open(dir.join(mname)).map_err(|e| e.to_string())?;
+    m.finalize(&mut mfile).map_err(|e| format!("manifest finalize: {e}"))?;
+    drop(mfile);
+    let _ = std::fs::remove_dir_all(&inputs);
+    let mut files: Vec<PathBuf> = vec![dir.join(mname)];
+    files.extend(names.iter().map(|n| dir.join(n)));
+    let mut path = dir.join(mname);
+    if let Some(out) = concat_to {
+        let outp = camino::Utf8PathBuf::from_path_buf(dir.join(out)).map_err(|_| "utf8")?;
+        jbk::tools::concat(&files, &outp).map_err(|e| format!("concat: {e}"))?;
+        for f in &files {
+            let _ = std::fs::remove_file(f);
+        }
+        files = vec![dir.join(out)];
+        path = dir.join(out);
+    }
+    let mut it = all_addrs.into_iter();
+    let addrs = it.next().unwrap_or_default();
+    Ok(CreatedCont { path, addrs, extra_addrs: it.collect(), inst, files })
+}
